@@ -17,7 +17,7 @@ Predicted(e_) ==   \* the observation the specification predicts for event e_ in
     [p |-> SrcP(e_.m, e_.d), w |-> SrcW(e_.m, e_.d)]
 Clause(e_) ==
     IF e_.exc # "" THEN "raised:" \o e_.exc
-    ELSE CASE e_.ev \in {"New", "Atom", "Shell", "AtomOp"} ->
+    ELSE CASE e_.ev \in {"New", "Atom", "Shell", "AtomOp", "AtomRot", "Mol"} ->
                  IF e_.p # Predicted(e_).p THEN "points-differ-from-shipped-data"
                  ELSE IF e_.w # Predicted(e_).w THEN "weights-differ-from-shipped-data"
                  ELSE IF e_.pa THEN "points-array-aliases-cache"
@@ -35,6 +35,8 @@ Apply(e_) ==
       [] e_.ev = "Atom" -> NewAtom(e_.m, e_.d)
       [] e_.ev = "Shell" -> Shell(e_.m, e_.d)
       [] e_.ev = "AtomOp" -> AtomOp(e_.m, e_.d)
+      [] e_.ev = "AtomRot" -> NewAtomRot(e_.m, e_.d)
+      [] e_.ev = "Mol" -> NewMol(e_.m, e_.d)
 Reset(t_) == /\ tid' = t_ /\ l' = 1
              /\ cache' = [mm_ \in Methods |-> [dd_ \in Degrees |-> Absent]]
              /\ objs' = <<>> /\ obs' = NoObs
